@@ -197,3 +197,26 @@ pub fn into_iter_all<const N: usize, const P: u32, S: Src>(s: &mut S) {
     drop(it);
     chk!(crate::tok::drop_events() == 0, "dropping the exhausted owning iterator destroys nothing");
 }
+
+// ------------------------------------------------------------------ C17 sensitivity witnesses
+
+/// growing a Vec must reach the (stubbed) allocator: shows the stub is live in this build
+pub fn alloc_witness_vec<const N: usize, const P: u32, S: Src>(s: &mut S) {
+    let mut v: Vec<u8> = Vec::new();
+    v.push(s.u8());
+    chk!(v.len() == 1, "unreachable: the allocation stub panics first");
+}
+
+#[cfg(feature = "alloc")]
+pub fn alloc_witness_to_vec<const N: usize, const P: u32, S: Src>(s: &mut S) {
+    let St { buf, len, .. } = build::<N, S>(s);
+    s.assume(len > 0);
+    let v = buf.to_vec();
+    chk!(v.len() == len, "unreachable: the allocation stub panics first");
+}
+
+#[cfg(feature = "alloc")]
+pub fn alloc_witness_boxed<const N: usize, const P: u32, S: Src>(_s: &mut S) {
+    let b = CircularBuffer::<N, Tok>::boxed();
+    chk!(b.len() == 0, "unreachable: the allocation stub panics first");
+}
